@@ -1410,7 +1410,19 @@ class Engine:
         d = v["d"]
         init = v.get("init")
         if v.get("staticlocal"):
-            fr.binds[d] = ("global", "static:" + v["n"])
+            g = ("global", "static:" + v["n"])
+            fr.binds[d] = g
+            ini = self._strip_e(init) if init is not None else None
+            if isinstance(ini, dict) and ini.get("k") == "initlist" and (t.get("k") == "array") and t.get("const"):
+                # a constant lookup table: remember its elements so that a read at a symbolic index can be related to them
+                outs = [(st, [])]
+                for a in ini.get("args") or []:
+                    outs = [(s2, acc + [val]) for s_, acc in outs for s2, val in self.ev(s_, self._fr(s_, fr), a)]
+                res = []
+                for s_, acc in outs:
+                    s_.mem[("statictable", g)] = tuple(acc)
+                    res.append(s_)
+                return res
             return [st]
         if t.get("ref"):
             outs = []
@@ -1717,6 +1729,27 @@ class Engine:
                 q.mem[lv] = ("havoc", next(self.uid), lv[2] if len(lv) > 2 else "v")
         self.emit(q, "LOOP_END", loc=s.get("loc"))
         q.loopdepth -= 1
+        if havoc and s.get("s") in ("for", "while") and s.get("c") is not None and not getattr(self, "_in_exit_cond", False):
+            # the loop was left normally: in the state after its last iteration the condition is false
+            self._in_exit_cond = True
+            try:
+                for q2, c in self.ev(q, f, s["c"]):
+                    if q2.status != "run":
+                        continue
+                    c = truthy(c)
+                    # counting loops: a variable that is only ever advanced by +1 under the guard `v < N` cannot pass N
+                    for g in ([c[1], c[2]] if isinstance(c, tuple) and c[:1] == ("and",) else [c]):
+                        if isinstance(g, tuple) and g[:2] == ("cmp", "<") and isinstance(g[2], tuple) and g[2][:1] == ("havoc",):
+                            nm_ = g[2][-1]
+                            steps = [e for e in q2.events if e.kind == "STORE" and e.loop > q2.loopdepth and isinstance(e.a, tuple) and e.a[:1] == ("var",) and e.a[-1] == nm_]
+                            if steps and all(isinstance(e.b, tuple) and e.b[:1] == ("lin",) and e.b[1] == 1 and len(e.b[2]) == 1 and e.b[2][0][1] == 1 and
+                                             isinstance(e.b[2][0][0], tuple) and e.b[2][0][0][:1] == ("havoc",) and e.b[2][0][0][-1] == nm_ for e in steps):
+                                self.assume(q2, cmp_("<=", g[2], g[3]), s.get("loc"), kind="loop-invariant")
+                    if self.assume(q2, neg(c), s.get("loc"), kind="loop-exit"):
+                        outs.append(q2)
+            finally:
+                self._in_exit_cond = False
+            return
         outs.append(q)
 
     # ------------------------------------------------------------ entry
